@@ -45,6 +45,19 @@ PROPS["C06"] = {
     "level_note": "Trusted: pyvc, z3, dict semantics. MutableMapping.update and Mapping.__eq__ are covered by the bounded layer only "
                   "(dict() construction from pairs is outside the engine); their termination rests on ItemsView.__iter__, which is proved.",
 }
+PROPS["C07"] = {
+    "units": ["contracts.c07_lfu", "contracts.c08_lists"],
+    "bounded": True,
+    "level": "proof",
+    "trusted_base": ["pyvc VC generator (/verif/pyvc)", "z3", "Python semantics as listed in DESIGN.md §2.3",
+                     "dict as a finite map (DESIGN §4)", "DoublyLinkedList contracts (proved in C08 for an uninterpreted payload)"],
+    "level_text": "LFUCache's primitives and _inc_freq are verified against the view key -> (value, use count) with the coupling invariant and "
+                  "the order invariant 'use counts >= 1 and non-decreasing along the list' (global form): a store replaces the value and counts "
+                  "as a use, a successful lookup counts as a use, a new key gets count 1, and when a new key is stored into a full cache the "
+                  "single key removed is the list head, whose count is minimal by the invariant. _inc_freq's loop invariant shows the moved "
+                  "node lands behind exactly the entries with a smaller count. Stdlib mixins and view iterators as for C06.",
+    "level_note": "Trusted: pyvc, z3, dict semantics. MutableMapping.update and Mapping.__eq__ are covered by the bounded layer only.",
+}
 
 # properties not claimed, with the reason (everything else not in PROPS gets the generic "not built yet" reason)
 NOT_APPLICABLE = {}
